@@ -364,6 +364,10 @@ def _build(r):
             o = ReprObj("<u>not filled in yet</u>")
             _LATE.append((o, r["s"]))
             return o
+        if r.get("also_tagifiable"):
+            # self-rendering AND tagifiable (a component class with a notebook preview): asked for markup directly, it is a
+            # self-rendering object like any other
+            return TFObj([], "list", r["s"])
         return ReprObj(r["s"])
     if k == "meta":
         if r.get("repr"):
@@ -468,6 +472,19 @@ def tag_function(name):
 
 
 def build_tag(r):
+    t = _build_tag(r)
+    if any(c.get("nodelist") is not None for c in r.get("c", []) if isinstance(c, dict)):
+        # a TagList that is itself a NODE of the child list (only item assignment keeps it whole): a self-rendering object
+        # whose markup is the list's own rendering
+        kids = flat_children(r)
+        if len(kids) == len(t.children):
+            for i, c in enumerate(kids):
+                if c.get("nodelist") is not None:
+                    t.children[i] = ht.TagList(*[build(x) for x in c["nodelist"]])
+    return t
+
+
+def _build_tag(r):
     name = r["name"]
     ws = r.get("ws", True)
     how = r.get("how", "ctor")
